@@ -524,10 +524,12 @@ class Evaluator:
             a, b = _s(a), _s(b)
             if isinstance(a, SStr) and isinstance(b, SStr):
                 return a + b
-            if isinstance(a, (SBytes, TRef)) and isinstance(b, (SBytes, TRef)) and (
-                isinstance(a, SBytes) or isinstance(b, SBytes)
-            ):
-                return self.as_bytes(a, e.left) + self.as_bytes(b, e.right)
+            def _byteslike(x: t.Any) -> bool:
+                return isinstance(x, SBytes) or (isinstance(x, DictMap) and bool(x.table) and all(isinstance(y, bytes) for y in x.table.values()))
+
+            if _byteslike(a) or _byteslike(b):
+                if isinstance(a, (SBytes, TRef, DictMap, CallVal, BSlice, Unknown)) and isinstance(b, (SBytes, TRef, DictMap, CallVal, BSlice, Unknown)):
+                    return self.as_bytes(a, e.left) + self.as_bytes(b, e.right)
             if isinstance(a, list) and isinstance(b, list):
                 return a + b
         if isinstance(op, ast.Mult):
@@ -610,6 +612,12 @@ class Evaluator:
         a = self.eval(e.left, st)
         b = self.eval(e.comparators[0], st)
         op = e.ops[0]
+        if isinstance(op, (ast.Is, ast.IsNot)) and isinstance(e.comparators[0], ast.Constant) and e.comparators[0].value is None and isinstance(a, DictMap) and a.table and all(x for x in a.table.values()):
+            # table.get(key) is None  <=>  the key is unknown (every table value is truthy): same atom as `not table.get(key)`
+            known = self.truth(a, e.left, st)
+            if isinstance(op, ast.IsNot):
+                return known
+            return BoolVal("not " + t.cast(BoolVal, known).desc, {"neg": known})
         if isinstance(op, (ast.Eq, ast.NotEq)):
             neg = isinstance(op, ast.NotEq)
             view, lit = None, None
@@ -741,6 +749,14 @@ class Evaluator:
             sub.env[var] = typed_value(f"{it.path}[*]", it.typ[1])
             elem = self.eval(e.elt, sub)
             return ("repeat", it.path, Lin.atom(("len", it.path)), elem, var)
+        if isinstance(gen.iter, ast.Call) and unparse(gen.iter.func) == "range" and 1 <= len(gen.iter.args) <= 3 and not gen.iter.keywords:
+            ra = [self.as_lin(self.eval(a, st), gen.iter) for a in gen.iter.args]
+            start, stop = (Lin(0), ra[0]) if len(ra) == 1 else (ra[0], ra[1])
+            step = ra[2] if len(ra) == 3 else Lin(1)
+            if not step.is_const() or step.const <= 0:
+                raise Unsupported(f"{self.func.qual}:{e.lineno}: comprehension over a range with step {step!r}")
+            count = (stop - start) if step.const == 1 else floordiv(stop - start + Lin(step.const - 1), step)
+            return self._comp_range(e, var, count, st, start, step.const)
         if isinstance(it, STuple):
             it = list(it.items)
         if isinstance(it, list):
@@ -751,6 +767,57 @@ class Evaluator:
                 out.append(self.eval(e.elt, sub))
             return out
         raise Unsupported(f"{self.func.qual}:{e.lineno}: comprehension over {it!r}")
+
+    def _comp_range(self, e: t.Union[ast.ListComp, ast.GeneratorExp], var: str, count: Lin, st: State, start: t.Optional[Lin] = None, step: int = 1) -> t.Any:
+        """[ELT for i in range(n)] over a byte window: every read of ELT must sit at  base + k*i + c  with one common
+        stride k; the comprehension is then the repeated read  (count n, element stride k)  of a loop that advances
+        its view by k per element, and evaluates to the list of the element values."""
+        import copy
+
+        lid = st.new_id()
+        itv = Lin.atom(("iter", lid))
+        sub = st.fork()
+        sub.env[var] = (start if start is not None else Lin(0)) + itv.scale(step)
+        base = len(sub.reads)
+        elem = self.eval(e.elt, sub)
+        body = sub.reads[base:]
+        st.calls[:] = sub.calls if len(sub.calls) >= len(st.calls) else st.calls
+        key = ("iter", lid)
+        stride: t.Optional[int] = None
+        bases: t.List[Lin] = []
+        for r in body:
+            k = r.lo.terms.get(key, 0)
+            if k <= 0:
+                raise Unsupported(f"{self.func.qual}:{e.lineno}: comprehension element does not read at an offset growing with the index")
+            kh = r.hi.terms.get(key, 0)
+            if kh not in (0, k):
+                raise Unsupported(f"{self.func.qual}:{e.lineno}: comprehension element window is not affine in the index")
+            if stride is None:
+                stride = k
+            elif stride != k:
+                raise Unsupported(f"{self.func.qual}:{e.lineno}: comprehension reads with different strides {stride} and {k}")
+            bases.append(r.lo - itv.scale(k))
+        if not body or stride is None:
+            raise Unsupported(f"{self.func.qual}:{e.lineno}: comprehension over range without reads")
+        lo0 = bases[0]
+        for b in bases[1:]:
+            d = b - lo0
+            if not d.is_const():
+                raise Unsupported(f"{self.func.qual}:{e.lineno}: comprehension reads at unrelated offsets")
+            if d.const < 0:
+                lo0 = b
+        name = f"<comp{lid}>"
+        ib = Lin.atom(("iterbase", lid, name))
+        shift = ib - lo0 - itv.scale(stride)
+        new_body = []
+        for r in body:
+            r2 = copy.copy(r)
+            r2.lo = r.lo + shift
+            r2.hi = r.hi + shift if r.hi.terms.get(key, 0) else r.hi
+            new_body.append(r2)
+        rid = st.new_id()
+        st.reads.append(Read(rid, "repeat", body[0].src, lo0, lo0, count=count, body=new_body, advance={name: Lin(stride)}, lid=lid, node=e, appends={}))
+        return ("rrepeat", rid, elem)
 
     # ------------------------------------------------------------------- calls
     def e_Await(self, e: ast.Await, st: State) -> t.Any:
@@ -796,6 +863,9 @@ class Evaluator:
                 return v
             if isinstance(v, Lin) and dotted == "bytearray":
                 return SBuf(f"{e.lineno}", v)
+            if isinstance(v, Lin) and dotted == "bytes":
+                # bytes(n): n zero bytes, the same value as b"\x00" * n
+                return self._repeat_bytes(t.cast(SBytes, self.const_to_value(b"\x00")), v, e)
             if isinstance(v, SBuf):
                 return SView(f"buf#{v.bid}", Lin(0), v.size) if dotted == "memoryview" else v
             if isinstance(v, CallVal):
@@ -1006,7 +1076,16 @@ class Evaluator:
         body = [b for b in fn.node.body if not (isinstance(b, ast.Expr) and isinstance(b.value, ast.Constant))]
         if not body or not isinstance(body[-1], ast.Return) or body[-1].value is None:
             return NotImplemented
-        if not all(isinstance(b, ast.Assign) and len(b.targets) == 1 and isinstance(b.targets[0], ast.Name) for b in body[:-1]):
+        def simple(b: ast.stmt) -> bool:
+            if isinstance(b, ast.Assign):
+                return len(b.targets) == 1 and isinstance(b.targets[0], ast.Name)
+            if isinstance(b, ast.AnnAssign):
+                return isinstance(b.target, ast.Name) and b.value is not None
+            if isinstance(b, ast.AugAssign):
+                return isinstance(b.target, ast.Name)
+            return False
+
+        if not all(simple(b) for b in body[:-1]):
             return NotImplemented
         sub = State()
         sub.counter = st.counter
@@ -1029,7 +1108,14 @@ class Evaluator:
             sub.decisions = st.decisions  # type: ignore[attr-defined]
             sub.loops = getattr(st, "loops", [])  # type: ignore[attr-defined]
         for b in body[:-1]:
-            sub.env[b.targets[0].id] = ev.eval(b.value, sub)  # type: ignore[attr-defined,union-attr]
+            if isinstance(b, ast.Assign):
+                sub.env[b.targets[0].id] = ev.eval(b.value, sub)  # type: ignore[attr-defined,union-attr]
+            elif isinstance(b, ast.AnnAssign):
+                sub.env[b.target.id] = ev.eval(b.value, sub)  # type: ignore[attr-defined,union-attr,arg-type]
+            else:
+                aug = t.cast(ast.AugAssign, b)
+                cur = ast.copy_location(ast.Name(id=aug.target.id, ctx=ast.Load()), aug)  # type: ignore[attr-defined]
+                sub.env[aug.target.id] = ev.eval(ast.copy_location(ast.BinOp(left=cur, op=aug.op, right=aug.value), aug), sub)  # type: ignore[attr-defined]
         return ev.eval(body[-1].value, sub)
 
     def construct(self, cls: Cls, e: ast.Call, kw: t.Dict[str, ast.expr], st: State) -> t.Any:
